@@ -502,6 +502,11 @@ func (m *emitModel) hooks() Hooks {
 				}
 			}
 			p.trace = append(p.trace, adv)
+			if role == "match" && len(args) == 1 && args[0].K == vConst {
+				if v, ok := constant.Int64Val(args[0].C); ok {
+					p.events = append(p.events, "match:"+constNameOf(m.toks, v))
+				}
+			}
 			return []valState{{st, constV(constant.MakeBool(true))}, {f, constV(constant.MakeBool(false))}}, true
 		case role == "check", role == "checkEnd":
 			return one(st, unknownV()), true
